@@ -26,6 +26,9 @@ pub struct WirePlan {
     pub imports: Vec<(u64, String)>,
     pub sentinels: bool,
     pub depth: u64,
+    /// leader/follower extension (C11, C12)
+    #[serde(default)]
+    pub cluster: Option<crate::cluster::ClusterSpec>,
 }
 
 pub fn mix_for(focus: &str) -> Mix {
@@ -96,6 +99,16 @@ pub fn mix_for(focus: &str) -> Mix {
             m.spub = 3;
             m.delete = 3;
             m.get = 3;
+        }
+        "C11" | "C12" => {
+            m.set = 20;
+            m.cset = 8;
+            m.delete = 6;
+            m.pdelete = 4;
+            m.grave_goods = 5;
+            m.last_will = 5;
+            m.publish = 1;
+            m.get = 2;
         }
         "C08" => {
             m.sys_attack = 40;
@@ -271,7 +284,32 @@ pub fn gen_plan(rng: &mut Rng, focus: &str, thorough: bool) -> WirePlan {
                 tame(op, rng);
             }
         }
-        if matches!(focus, "C07" | "C06" | "C03") && rng.chance(1, 2) {
+        if focus == "C12" {
+            // the {"Cas":[x,n]} serialisation ambiguity (finding F7) is C09's and C11's matter
+            fn plain(v: &mut Value) {
+                let repl = match v {
+                    Value::Object(o) if o.len() == 1 && o.contains_key("Cas") => {
+                        o.get("Cas").and_then(|c| c.as_array()).and_then(|a| a.first()).cloned()
+                    }
+                    _ => None,
+                };
+                if let Some(r) = repl {
+                    *v = r;
+                    return;
+                }
+                match v {
+                    Value::Object(o) => o.values_mut().for_each(plain),
+                    Value::Array(a) => a.iter_mut().for_each(plain),
+                    _ => {}
+                }
+            }
+            for op in cp.ops.iter_mut() {
+                if let Op::Req(v) = op {
+                    plain(v);
+                }
+            }
+        }
+        if matches!(focus, "C07" | "C06" | "C03" | "C11" | "C12") && rng.chance(1, 2) {
             cp.end = *rng.pick(&[EndKind::Close, EndKind::Reset]);
         }
         if matches!(focus, "C07" | "C06" | "C02" | "C03") && rng.chance(1, 5) && !cp.ops.is_empty() {
@@ -297,7 +335,7 @@ pub fn gen_plan(rng: &mut Rng, focus: &str, thorough: bool) -> WirePlan {
         clients.push(w);
     }
     let mut imports = vec![];
-    if matches!(focus, "C01" | "C03" | "C05") && rng.chance(1, 3) {
+    if matches!(focus, "C01" | "C03" | "C05" | "C11" | "C12") && rng.chance(1, 3) {
         for n in 0..rng.range(1, 2) {
             imports.push((rng.range(0, 100_000), gen_import(rng, n as usize)));
         }
@@ -312,6 +350,11 @@ pub fn gen_plan(rng: &mut Rng, focus: &str, thorough: bool) -> WirePlan {
         imports,
         sentinels: focus == "C08" || rng.chance(1, 4),
         depth,
+        cluster: if matches!(focus, "C11" | "C12") {
+            Some(crate::cluster::gen_spec(rng, focus, thorough))
+        } else {
+            None
+        },
     }
 }
 
@@ -358,10 +401,17 @@ pub async fn run(plan: WirePlan) -> Outcome {
     let cbs = plan.channel_buffer_size;
     let em = plan.extended_monitoring;
     let st = plan.send_timeout_s;
+    let cl = plan.cluster.clone();
     let server = match harness::start_server("wb", move |c| {
         c.channel_buffer_size = cbs;
         c.extended_monitoring = em;
         c.send_timeout = st.map(Duration::from_secs);
+        if let Some(cl) = &cl {
+            c.leader = true;
+            c.sync_port = Some(cl.sync_port);
+            c.use_persistence = true;
+            c.persistence_interval = Duration::from_secs(cl.interval_s);
+        }
     })
     .await
     {
@@ -401,6 +451,10 @@ pub async fn run(plan: WirePlan) -> Outcome {
         }
     }
     hist.mark("start");
+    let followers = plan
+        .cluster
+        .as_ref()
+        .map(|cl| crate::cluster::start_followers(cl, server.node, plan.channel_buffer_size));
     // clients
     let mut handles = vec![];
     let mut protos = BTreeMap::new();
@@ -601,6 +655,59 @@ pub async fn run(plan: WirePlan) -> Outcome {
         }
     }
     out.model_states = rp.states.len() as u64;
+    if std::env::var("WBSIM_DEBUG_GROUPS").is_ok() {
+        for (g, fx) in rp.groups.iter().zip(rp.effects.iter()) {
+            eprintln!("group {:?} inv={} resp={} w={} fx={:?}", g.what, g.inv, g.resp, g.w, fx);
+        }
+    }
+    if let (Some(cl), Some((fs, tasks))) = (&plan.cluster, &followers) {
+        for t in tasks {
+            // follower life cycles are bounded by their own timers
+            let _ = t;
+        }
+        let mut imported_cas: BTreeSet<String> = plan
+            .imports
+            .iter()
+            .flat_map(|(_, d)| crate::check_import::flatten(d))
+            .filter(|(_, _, c)| c.is_some())
+            .map(|(k, _, _)| k)
+            .collect();
+        for c in &plan.clients {
+            for op in &c.ops {
+                if let Op::Req(v) = op {
+                    for kind in ["set", "cSet", "publish"] {
+                        if let Some(m) = v.get(kind) {
+                            let shaped = m
+                                .get("value")
+                                .and_then(|x| x.as_object())
+                                .map(|o| o.len() == 1 && o.contains_key("Cas"))
+                                .unwrap_or(false);
+                            if let (true, Some(k)) = (shaped, m.get("key").and_then(|k| k.as_str())) {
+                                imported_cas.insert(format!("\u{0}casshape:{k}"));
+                            }
+                        }
+                    }
+                }
+            }
+        }
+        // give the follower life cycles (late joins, restarts, partitions) time to finish
+        tokio::time::sleep(Duration::from_millis(500)).await;
+        if out.inconclusive {
+            // the order of changes could not be established: no basis for attributing differences
+        } else if let Some((lv, views)) =
+            crate::cluster::check_convergence(&mut out, cl, &server, fs, &rp, &imported_cas).await
+        {
+            if let Some(p) = &cl.promote {
+                crate::cluster::check_promotion(&mut out, cl, p, &server, fs, &lv, &views).await;
+            }
+        }
+        for f in fs.lock().expect("followers").iter() {
+            if let Some(e) = &f.failed {
+                out.probe("follower_start_failed");
+                let _ = e;
+            }
+        }
+    }
     // witness session of C17 must have been served throughout
     if focus == "C17" {
         let wi = plan.clients.len() - 1;
@@ -658,6 +765,7 @@ fn nontrivial(plan: &WirePlan, parsed: &check_wire::Parsed, rp: &check_wire::Rep
         "C02" => rp.groups.len() >= 3 && plan.clients.len() >= 2,
         "C03" => parsed.subs.len() >= 1 && rp.groups.len() >= 3,
         "C07" => !rp.ended.is_empty() && rp.groups.len() >= 2,
+        "C11" | "C12" => rp.groups.len() >= 3,
         "C13" => answered >= 5 && errs >= 1,
         _ => answered >= 3,
     }
@@ -800,6 +908,29 @@ pub fn shrink(plan: &WirePlan) -> Vec<WirePlan> {
         let mut p = plan.clone();
         p.extended_monitoring = false;
         out.push(p);
+    }
+    if let Some(cl) = &plan.cluster {
+        if cl.followers.len() > 1 {
+            for i in 0..cl.followers.len() {
+                let mut p = plan.clone();
+                p.cluster.as_mut().expect("cluster").followers.remove(i);
+                out.push(p);
+            }
+        }
+        for (i, f) in cl.followers.iter().enumerate() {
+            if f.restart_at_us.is_some() || f.partition.is_some() || f.join_at_us > 0 {
+                let mut p = plan.clone();
+                let ff = &mut p.cluster.as_mut().expect("cluster").followers[i];
+                if ff.restart_at_us.is_some() {
+                    ff.restart_at_us = None;
+                } else if ff.partition.is_some() {
+                    ff.partition = None;
+                } else {
+                    ff.join_at_us = 0;
+                }
+                out.push(p);
+            }
+        }
     }
     if plan.sentinels && plan.focus != "C08" {
         let mut p = plan.clone();
